@@ -62,6 +62,7 @@ Failed ==
   (IF P_C14_Windows THEN {} ELSE {"P_C14_Windows"}) \cup
   (IF P_C14_NewStreamWindow THEN {} ELSE {"P_C14_NewStreamWindow"}) \cup
   (IF P_C14_FrameSize THEN {} ELSE {"P_C14_FrameSize"}) \cup
+  (IF P_C14_WholeFrames THEN {} ELSE {"P_C14_WholeFrames"}) \cup
   (IF P_C14_MaxStreams THEN {} ELSE {"P_C14_MaxStreams"}) \cup
   (IF P_C14_StreamIds THEN {} ELSE {"P_C14_StreamIds"}) \cup
   (IF P_C14_Hpack THEN {} ELSE {"P_C14_Hpack"}) \cup
@@ -122,6 +123,13 @@ T_Step ==
             /\ UNCHANGED <<pend, nset, eff, connWin, strWin, ids, sst, pst, rem, up, nextOurs, lastPeer, cont, needUpd,
                            advInit, advConn, advStr, oweConn, oweStr, enl, ourSet, starved, errOwed, dead, burst, dropped>>
             /\ Note("SozuBigFrame", e.n <= eff.maxFrame)
+       [] e.ev \in {"SozuForeign", "SozuOther"} ->                    \* judged by P_C14_WholeFrames
+            \* foreign bytes inside a DATA payload / a frame header of a type HTTP/2 does not define
+            /\ last' = [NoFrame EXCEPT !.k = (IF e.ev = "SozuForeign" \/ e.ty > 9 THEN "Z" ELSE "-"), !.sid = e.sid, !.len = e.n]
+            /\ stall' = FALSE
+            /\ UNCHANGED <<pend, nset, eff, connWin, strWin, ids, sst, pst, rem, up, nextOurs, lastPeer, cont, needUpd,
+                           advInit, advConn, advStr, oweConn, oweStr, enl, ourSet, starved, errOwed, dead, burst, dropped>>
+            /\ Note(e.ev, e.ev = "SozuForeign" \/ e.ty > 9)          \* PRIORITY / PUSH_PROMISE: sozu never sends them
        [] e.ev = "Stall" -> E_Stall /\ Note("Stall", TRUE)             \* judged by P_C14_Progress
        [] e.ev = "Idle" -> E_Idle /\ Note("Idle", G_Idle)
        [] e.ev = "Done" -> Unch /\ Note("Done", Finished)
